@@ -32,6 +32,11 @@ var c19ListTraces = [][]string{
 	{"ts_spot_limitsell_met_own1", "ts_spot_limitbuy_met_own2", "ts_cancel_everyones_by_own2"},
 }
 
+var c19MemoryTraces = [][]string{
+	{"create_pool_lp1", "swap_out_p3_half_usdc_reserve", "swap_out_p3_half_usdc_reserve"},
+	{"create_pool_lp1", "swap_out_p3_half_usdc_reserve", "swap_in_p3_atom_double_reserve"},
+}
+
 type c19Rec struct {
 	Hash string   `json:"hash"`
 	Tx   []string `json:"tx"`
@@ -265,6 +270,10 @@ func RunC19(tier string) int {
 	budget := deadlineFor(tier)
 	// phase 1: every trace in two different processes (units are interleaved so that the two
 	// runs of a trace land on different workers)
+	// PROCESS MEMORY traces: inputs that hit a shortcut visible in the pricing code (a weighted pool with a
+	// fractional exponent whose balance ratio is EXACTLY 2 takes computeLn's constant-returning branch), twice,
+	// with every restart point in between: whatever a long-running process remembers, a restarted one does not
+	traces = append(traces, c19MemoryTraces...)
 	var units []interface{}
 	for _, tr := range traces {
 		units = append(units, c19Unit{Kind: "run", Trace: tr})
